@@ -346,8 +346,8 @@ def barycentricToFace (b : Float × Float × Float) (t : FaceTriangle) : V2 :=
 
 def toSpherical (c : V3) : Float × Float :=   -- (theta, phi)
   let theta := Float.atan2 c.y c.x
-  let r := (c.x * c.x + c.y * c.y + c.z * c.z).sqrt
-  (theta, (c.z / r).acos)
+  -- fix e88aa12: `atan2(hypot, z)` instead of `acos(z / r)` (which loses half the digits near the poles)
+  (theta, Float.atan2 (c.x * c.x + c.y * c.y).sqrt c.z)
 
 def toCartesian (theta phi : Float) : V3 :=
   let sp := phi.sin
